@@ -12,15 +12,18 @@ A8 == {65, 128, 143, 144, 159, 160, 187, 189, 191, 192, 193, 194, 223, 224, 225,
 A8small == {65, 128, 144, 160, 187, 189, 191, 193, 194, 224, 225, 237, 239, 240, 241, 244, 245, 255, 143}
 \* BMP below / above the surrogates, both surrogate range ends, NUL, max
 A16 == {0, 65, 233, 55295, 55296, 56319, 56320, 57343, 57344, 65279, 65533, 65535}
-Alpha == IF Mode = "u8" THEN A8small ELSE A16
-MaxL == IF Mode = "u8" THEN MaxLen8 ELSE MaxLen16
+\* Mode "u8" / "u16": all sequences up to the bound over the class alphabets; "u8all" / "u16all": EVERY byte pair / EVERY single
+\* code unit (a decoder may treat a content class specially - "all below 0x200" - that no class alphabet happens to hit)
+IsU8 == Mode \in {"u8", "u8all"}
+Alpha == CASE Mode = "u8" -> A8small [] Mode = "u8all" -> 0..255 [] Mode = "u16all" -> 0..65535 [] OTHER -> A16
+MaxL == IF IsU8 THEN MaxLen8 ELSE MaxLen16
 Init == s = <<>>
 Next == Len(s) < MaxL /\ \E a \in Alpha : s' = Append(s, a)
 Spec == Init /\ [][Next]_s
-Emit == IF Mode = "u8"
+Emit == IF IsU8
         THEN PrintT("U8 " \o ToJson([b |-> s, v |-> Valid8(s), t |-> Lossy8(s)]))
         ELSE LET r == Dec16(s) IN PrintT("U16 " \o ToJson([u |-> s, ok |-> r.ok, t |-> r.text, l |-> r.lossy]))
 \* the two decoders agree on well-formed input, and the lossy text is always well-formed
-Sane == IF Mode = "u8" THEN (Valid8(s) => Lossy8(s) = s) /\ Valid8(Lossy8(s))
+Sane == IF IsU8 THEN (Valid8(s) => Lossy8(s) = s) /\ Valid8(Lossy8(s))
         ELSE LET r == Dec16(s) IN (r.ok => r.text = r.lossy) /\ Valid8(r.lossy)
 =============================================================================
